@@ -185,6 +185,42 @@ pub fn next_or_self<T>(n: &ListNode<T>) -> *mut ListNode<T> {
         None => n as *const _ as *mut _,
     }
 }
+/// scratch memory that stands in for "no node" in `modifies` clauses (a modifies target must always be a valid pointer)
+static mut NO_NODE: [u64; 32] = [0; 32];
+pub fn no_node<T>() -> *mut ListNode<T> {
+    assert!(core::mem::size_of::<ListNode<T>>() <= 256);
+    unsafe { core::ptr::addr_of_mut!(NO_NODE) as *mut ListNode<T> }
+}
+pub fn tail_or_none<T>(l: &LinkedList<T>) -> *mut ListNode<T> {
+    match l.tail {
+        Some(p) => p.as_ptr(),
+        None => no_node(),
+    }
+}
+pub fn tail_prev_or_none<T>(l: &LinkedList<T>) -> *mut ListNode<T> {
+    match l.tail {
+        Some(p) => match unsafe { p.as_ref().prev } {
+            Some(q) => q.as_ptr(),
+            None => no_node(),
+        },
+        None => no_node(),
+    }
+}
+pub fn head_or_none<T>(l: &LinkedList<T>) -> *mut ListNode<T> {
+    match l.head {
+        Some(p) => p.as_ptr(),
+        None => no_node(),
+    }
+}
+pub fn head_next_or_none<T>(l: &LinkedList<T>) -> *mut ListNode<T> {
+    match l.head {
+        Some(p) => match unsafe { p.as_ref().next } {
+            Some(q) => q.as_ptr(),
+            None => no_node(),
+        },
+        None => no_node(),
+    }
+}
 pub fn head_or<T>(l: &LinkedList<T>, n: &ListNode<T>) -> *mut ListNode<T> {
     match l.head {
         Some(p) => p.as_ptr(),
@@ -233,6 +269,136 @@ fn any_k(max: usize) -> usize {
     k
 }
 
+// ------------------------------------------------------------------------------------------------
+// The contracts.  The `cfg_attr(kani, kani::requires/ensures)` attributes on the real functions call exactly these
+// predicates, and so do the plain harnesses below, so both always check the same text.
+// ------------------------------------------------------------------------------------------------
+pub fn pre_wf<T>(l: &LinkedList<T>) -> bool {
+    wf(l)
+}
+pub fn pre_add_front<T>(l: &LinkedList<T>, node: &ListNode<T>) -> bool {
+    wf(l) && len(l) < N && !contains(l, node)
+}
+/// the node is the new front; everything else keeps its order; links consistent
+pub fn post_add_front<T>(l: &LinkedList<T>, node: &ListNode<T>, old_view: View) -> bool {
+    wf(l) && same(view(l), pushed_front(old_view, addr(node)))
+}
+pub fn post_peek_first<T>(l: &LinkedList<T>, r: &Option<&ListNode<T>>) -> bool {
+    opt_addr_ref(r) == first(&view(l))
+}
+pub fn post_peek_last<T>(l: &LinkedList<T>, r: &Option<&ListNode<T>>) -> bool {
+    opt_addr_ref(r) == last(&view(l))
+}
+pub fn post_peek_first_mut<T>(l: &LinkedList<T>, r: &Option<&mut ListNode<T>>, old_view: View) -> bool {
+    wf(l) && same(view(l), old_view) && opt_addr(r) == first(&view(l))
+}
+pub fn post_peek_last_mut<T>(l: &LinkedList<T>, r: &Option<&mut ListNode<T>>, old_view: View) -> bool {
+    wf(l) && same(view(l), old_view) && opt_addr(r) == last(&view(l))
+}
+/// the old front is returned, carries no links, and exactly it is gone
+pub fn post_remove_first<T>(l: &LinkedList<T>, r: &Option<&mut ListNode<T>>, old_view: View) -> bool {
+    wf(l) && opt_addr(r) == first(&old_view) && opt_unlinked(r) && same(view(l), without(old_view, opt_addr(r)))
+}
+pub fn post_remove_last<T>(l: &LinkedList<T>, r: &Option<&mut ListNode<T>>, old_view: View) -> bool {
+    wf(l) && opt_addr(r) == last(&old_view) && opt_unlinked(r) && same(view(l), without(old_view, opt_addr(r)))
+}
+pub fn post_is_empty<T>(l: &LinkedList<T>, r: bool) -> bool {
+    r == (len(l) == 0)
+}
+pub fn pre_remove<T>(l: &LinkedList<T>, node: &ListNode<T>) -> bool {
+    wf(l) && member_or_unlinked(l, node)
+}
+/// reports membership; a member is unlinked (no links left) and exactly it is gone, order of the rest kept;
+/// a non-member changes nothing
+pub fn post_remove<T>(l: &LinkedList<T>, node: &ListNode<T>, r: bool, old_view: View) -> bool {
+    wf(l) && r == contains_addr(&old_view, addr(node)) && unlinked(node) && same(view(l), without(old_view, addr(node)))
+}
+
+fn any_node(a: &mut Arena) -> *mut ListNode<u8> {
+    // any of the N arena nodes, or the extra node that is in no list
+    let which = any_k(N);
+    if which < N {
+        unsafe { a.nodes.as_mut_ptr().add(which) }
+    } else {
+        &mut a.extra
+    }
+}
+
+// ---------------- plain harnesses: assume pre, call the REAL function, assert post (quick tier) ----------------
+#[kani::proof]
+fn plain_remove() {
+    let mut a = arena();
+    let k = any_k(N);
+    let mut list = unsafe { build(&mut a, k) };
+    let node = unsafe { &mut *any_node(&mut a) };
+    kani::assume(pre_remove(&list, node));
+    let v0 = view(&list);
+    kani::cover!(contains(&list, node), "member");
+    kani::cover!(!contains(&list, node), "non-member");
+    let r = unsafe { list.remove(node) };
+    assert!(post_remove(&list, node, r, v0));
+}
+
+#[kani::proof]
+fn plain_add_front() {
+    let mut a = arena();
+    let k = any_k(N - 1);
+    let mut list = unsafe { build(&mut a, k) };
+    // the new node: stale links allowed (add_front overwrites them)
+    a.extra.prev = if kani::any() { Some((&mut a.nodes[0]).into()) } else { None };
+    kani::assume(pre_add_front(&list, &a.extra));
+    let v0 = view(&list);
+    unsafe { list.add_front(&mut a.extra) };
+    assert!(post_add_front(&list, &a.extra, v0));
+    kani::cover!(k == N - 1, "largest list");
+}
+
+#[kani::proof]
+fn plain_remove_first() {
+    let mut a = arena();
+    let k = any_k(N);
+    let mut list = unsafe { build(&mut a, k) };
+    kani::assume(pre_wf(&list));
+    let v0 = view(&list);
+    let lp: *const LinkedList<u8> = &list;
+    let r = list.remove_first();
+    assert!(post_remove_first(unsafe { &*lp }, &r, v0));
+}
+
+#[kani::proof]
+fn plain_remove_last() {
+    let mut a = arena();
+    let k = any_k(N);
+    let mut list = unsafe { build(&mut a, k) };
+    kani::assume(pre_wf(&list));
+    let v0 = view(&list);
+    let lp: *const LinkedList<u8> = &list;
+    let r = list.remove_last();
+    assert!(post_remove_last(unsafe { &*lp }, &r, v0));
+}
+
+#[kani::proof]
+fn plain_peeks_and_is_empty() {
+    let mut a = arena();
+    let k = any_k(N);
+    let mut list = unsafe { build(&mut a, k) };
+    kani::assume(pre_wf(&list));
+    let v0 = view(&list);
+    let lp: *const LinkedList<u8> = &list;
+    assert!(post_is_empty(&list, list.is_empty()));
+    assert!(post_peek_first(&list, &list.peek_first()));
+    assert!(post_peek_last(&list, &list.peek_last()));
+    {
+        let r = list.peek_first_mut();
+        assert!(post_peek_first_mut(unsafe { &*lp }, &r, v0));
+    }
+    {
+        let r = list.peek_last_mut();
+        assert!(post_peek_last_mut(unsafe { &*lp }, &r, v0));
+    }
+}
+
+// ---------------- function-contract harnesses on the same predicates (thorough tier) ----------------
 #[kani::proof_for_contract(LinkedList::remove)]
 fn contract_remove() {
     let mut a = arena();
@@ -365,24 +531,5 @@ fn harness_drain() {
             assert!(seen[i] == v.0[i]);
         }
         i += 1;
-    }
-}
-
-#[kani::proof]
-fn plain_remove() {
-    let mut a = arena();
-    let k = any_k(N);
-    let mut list = unsafe { build(&mut a, k) };
-    let which = any_k(N);
-    let node: *mut ListNode<u8> = if which < N { unsafe { a.nodes.as_mut_ptr().add(which) } } else { &mut a.extra };
-    let v0 = view(&list);
-    unsafe {
-        let node = &mut *node;
-        kani::assume(wf(&list) && member_or_unlinked(&list, node));
-        let r = list.remove(node);
-        assert!(wf(&list));
-        assert!(r == contains_addr(&v0, addr(node)));
-        assert!(unlinked(node));
-        assert!(same(view(&list), without(v0, addr(node))));
     }
 }
